@@ -36,4 +36,14 @@ CHECKS = {
                 "distinct = enumerated valid raw values + distinct (case, zone) hashes",
         "assumptions": TRUST + ["the zone database of the sandbox / embedded time/tzdata gives the UTC offset of an instant", "seconds==0 denotes the zero timestamp and is only generated with a zero fraction"],
     },
+    "C01": {
+        "test": "TestC01", "level": "exploration", "checks": (300, 12000), "timeout": (900, 7200),
+        "rule": "rapid-generated row-based histories (config x 1..4(8) tables x every emitted column type with its metadata domain x units {tx/XID, tx/COMMIT, rolled-back tx, DDL, "
+                "autocommitted rows, statement DML, rotations, GTID / anonymous-GTID / previous-GTIDs / heartbeat / unknown events and statements} x full / key-only / random "
+                "row images x NULLs) laid out by the independent encoder, served over loopback TCP by the simulated master from a drawn unit boundary to a fresh Streamer "
+                "through the unmodified driver; the handler's deliveries are compared field by field with the reference model computed from the logical history. "
+                "Non-trivial = the expectation contains a rows event with >= 1 row and >= 2 columns; distinct = distinct case hashes among those",
+        "assumptions": TRUST + ["the simulated master follows Binlog_sender (artificial ROTATE, format description, events from the requested offset, next file after a real ROTATE, EOF at the end)",
+                                "how Stream/Error() end at the EOF is judged by C05/C06, not here"],
+    },
 }
